@@ -148,3 +148,16 @@ reg('C09',
     'explored space. Three by-design divergences are known findings keyed by call site (Lv/Ts/Og shared bit, unknown hydrogens encoded as 0, ring sizes > 65).',
     'field-exhaustive enumeration of the mask layout and of query x molecule pairs; source-derived model of the compiled matcher vs reference matcher',
     'DESIGN.md s3.5, s5 C09')
+
+reg('C08',
+    'Query atoms: 10 element specs (symbols, atomic numbers, lists, any-atom, any-metal) x (each of 27 primitives and every pair of primitives of '
+    'different kinds: D, h, r/!R, a, x, z incl. value lists) plus charges and isotopes are parsed from SMARTS text and compared, as qatom == atom and '
+    'through one-atom searches, against every atom of a molecule scope (D(<=5,1), rings 3-7, fused/spiro/biphenyl, charged, isotopic, radical, '
+    'organometallic, corpus stride). Query bonds: 21 bond primitives (orders, order lists, negations, ring/non-ring marks) against every bond. The '
+    'expected answer is recomputed from raw atoms and bond orders only: degree, heteroatom count, hybridisation from orders, hydrogens from the '
+    'element-table re-derivation, ring membership by bridges, ring sizes by an independent minimum cycle basis. Unsupported constructs and all token '
+    'strings of length <=3 over a 19-token SMARTS alphabet must be rejected with the invalid-SMARTS (ValueError) error or parse.',
+    'Trusted: vf/oracle/cycles.py, vf/oracle/valence.py and the hand-written non-metal list. Ring-size primitives are judged only on molecules whose '
+    'minimum cycle basis is unique (others counted as out of domain). Stereo marks in SMARTS are not covered by this check (C12 covers configuration).',
+    'bounded exhaustive enumeration of primitives and primitive pairs x atom/bond environments on the real implementation vs reference attributes',
+    'DESIGN.md s5 C08')
